@@ -167,3 +167,44 @@ Theorem merge_loop_sorted_binary_heap : forall cmp ts,
   Forall (fun t => wf_tree t = true) ts -> sorted (merge_loop cmp ts).
 Proof. exact merge_loop_sorted_binary_heap_lemma. Qed.
 Print Assumptions merge_loop_sorted_binary_heap.
+
+From Verif.C12 Require Import Proofs6.
+
+(* COPY PRESERVES CONTENT.  Composition with C08: the repacker (BlobCopier::copy over coalesced reads, C08
+   `repack_preserves_blobs`) hands the target packer, for every entry, the decoded bytes of that entry's own
+   source location; the target packer (C08 `packer_pack_wellformed`) writes them - encoded by the
+   destination's Packer::add (`denc`: compress + encrypt under the destination key) - into packs whose index
+   entries have contiguous offsets.  For EVERY list of needed entries with distinct ids, every save pattern,
+   every source decoder and every destination encoder/decoder pair with `ddec (denc x) = Some x` (AEAD and zstd
+   round trip, as C08 states them; header encryption adds 32 bytes): each entry's blob is indexed in a
+   written destination pack at a location whose bytes decode to exactly the source blob's decoded bytes. *)
+Theorem copy_preserves_content : forall sstore sdecode denc dulen ddec enc,
+  (forall x, ddec (denc x) (dulen x) = Some x) ->
+  (forall x, length (enc x) = (length x + 32)%nat) ->
+  forall tpe es out saves packs,
+    NoDup (map Verif.C08.Repack.ce_id es) ->
+    Verif.C08.Repack.repack true sstore sdecode es = Verif.C08.Model.Ok out ->
+    Forall Verif.C08.Spec.wf_op (dest_ops denc dulen out saves) ->
+    Verif.C08.Model.packer_run enc tpe (dest_ops denc dulen out saves) = Verif.C08.Model.Ok packs ->
+    forall e, In e es ->
+      exists pd f bs b,
+        Verif.C08.Repack.expected_of sstore sdecode e
+          = Some (Verif.C08.Repack.ce_id e, pd, Verif.C08.Repack.l_ulen (Verif.C08.Repack.ce_loc e)) /\
+        In (f, bs) packs /\ In b bs /\ Verif.C08.Model.bid b = Verif.C08.Repack.ce_id e /\
+        Verif.C08.Model.btpe b = tpe /\
+        ddec (Verif.C08.Model.slice f (Verif.C08.Model.boff b) (Verif.C08.Model.blen b)) (Verif.C08.Model.bulen b) = Some pd.
+Proof. exact copy_preserves_content_lemma. Qed.
+Print Assumptions copy_preserves_content.
+
+(* ... hence, with content addressing for the blobs the destination already had, every reachable blob reads
+   the same bytes in the destination as in the source, and every file of every copied snapshot restores to
+   the same bytes (same chunk list, same plaintext per chunk). *)
+Theorem copy_restores_identically : forall tid src dst snaps (src_plain dst_plain : bt * N -> option (list N)),
+  (forall b, In b (flat_map (reach tid) snaps) -> has src b = true) ->
+  (forall b, In b (flat_map (reach tid) snaps) -> has dst b = true -> dst_plain b = src_plain b) ->
+  (forall b, In b (needed tid src dst snaps) -> dst_plain b = src_plain b) ->
+  (forall b, In b (flat_map (reach tid) snaps) -> dst_plain b = src_plain b) /\
+  forall t p n, In t snaps -> In (p, n) (paths [] t) -> n_kind n = KFile ->
+    map (fun i => dst_plain (Data, i)) (n_content n) = map (fun i => src_plain (Data, i)) (n_content n).
+Proof. exact copy_restores_identically_lemma. Qed.
+Print Assumptions copy_restores_identically.
